@@ -15,8 +15,16 @@ MUTATING = {"append", "pop", "insert", "remove", "extend", "clear", "sort", "rev
 
 
 def _eval(repo: Repo, cls: Optional[str], fn: ast.FunctionDef, **kw) -> List[Outcome]:
+    # get_indents is judged on its own (rule_indent_plumbing); everywhere else it stays a symbolic call
+    kw.setdefault("opaque_methods", ("get_indents", "interpreted_text") if fn.name != "get_indents" else ())
     ev = Evaluator(repo, MOD, cls, **kw)
-    return ev.run_function(fn, {"self": SELF} if cls else {})
+    # every parameter is symbolic (defaults such as Settings() are not expanded)
+    args = {p_: ("sym", p_) for p_ in func_params(fn)}
+    if cls:
+        args[func_params(fn)[0]] = SELF
+    if fn.args.vararg:
+        args[fn.args.vararg.arg] = ("sym", "*" + fn.args.vararg.arg)
+    return ev.run_function(fn, args)
 
 
 def flat(t) -> List[Any]:
@@ -28,6 +36,60 @@ def flat(t) -> List[Any]:
             out.extend(flat(p))
         return out
     return [t]
+
+
+IT = ("it",)
+
+
+def _subst(t, a, b):
+    if t == a:
+        return b
+    if isinstance(t, tuple):
+        return tuple(_subst(x, a, b) if isinstance(x, tuple) else x for x in t)
+    return t
+
+
+def string_parts(t, o: Outcome) -> List[Any]:
+    """Normalise the ways a text is assembled (+=, f-strings, "".join of a list that was appended / extended, joined
+    comprehensions) into a flat list of parts; repeated parts are ('each', iterable, [parts over ('it',)])."""
+    if t[0] == "binop" and t[1] == "+":
+        return string_parts(t[2], o) + string_parts(t[3], o)
+    if t[0] == "fstr":
+        out = []
+        for p in t[1:]:
+            out.extend(string_parts(p, o))
+        return out
+    if t[0] == "foreach":
+        lp = o.state.loops.get(t[1])
+        body = string_parts(_subst(t[2], ("elem", t[1], None), IT), o)
+        return [("each", lp["iter"] if lp else None, body)]
+    if t[0] == "call" and t[1][0] == "attr" and t[1][2] == "join" and t[1][1] == const("") and len(t[2]) == 1:
+        return _joined_items(t[2][0], o)
+    return [t]
+
+
+def _joined_items(x, o: Outcome) -> List[Any]:
+    if x[0] == "comp" and len(x[3]) == 1 and not x[3][0][2]:
+        var, it, _c = x[3][0]
+        return [("each", it, string_parts(_subst(x[2], ("bv", var), IT), o))]
+    ob = o.state.obj(x)
+    if ob is not None and ob.get("kind") == "list":
+        out = []
+        for item in ob["items"]:
+            if isinstance(item, tuple) and item and item[0] == "spread":
+                out.extend(_joined_items(item[1], o))
+            elif isinstance(item, tuple) and item and item[0] == "loopitem":
+                lp = o.state.loops.get(item[1])
+                out.append(("each", lp["iter"] if lp else None, string_parts(_subst(item[2], ("elem", item[1], None), IT), o)))
+            else:
+                out.extend(string_parts(item, o))
+        return out
+    if x[0] in ("list", "tuple"):
+        out = []
+        for item in x[1:]:
+            out.extend(string_parts(item, o))
+        return out
+    return [("joined", x)]
 
 
 # ----------------------------------------------------------------------
@@ -144,7 +206,7 @@ def rule_directive_order(rep: Report, repo: Repo, rule: str) -> None:
         if o.kind != "return":
             continue
         n += 1
-        parts = flat(o.value())
+        parts = string_parts(o.value(), o)
         has_content = None
         for a, v in o.conds:
             if a[0] == "lencmp" and a[1] == doc and (a[2], a[3]) in ((">", 1), (">=", 2)):
@@ -200,17 +262,15 @@ def _classify_part(p, o: Outcome, doc, opts) -> str:
         return "nl" if len(p[1]) == 1 else "nl*"
     if p == ("sub", doc, const(0)):
         return "heading"
-    if p[0] == "foreach":
-        lp = o.state.loops.get(p[1])
-        it = lp["iter"] if lp else None
-        body = flat(p[2])
+    if p[0] == "each":
+        it, body = p[1], p[2]
         ends_nl = bool(body) and body[-1] == const("\n")
-        elem_only = len(body) == 2 and body[0][0] == "elem"
+        elem_only = len(body) == 2 and body[0] == IT
         if it == opts and ends_nl and elem_only:
             return "options"
         if it is not None and it[0] == "slice" and it[1] == doc and it[2] == const(1) and it[3] == NONE and ends_nl and elem_only:
             return "content"
-        return f"loop({show(it)})"
+        return f"loop({show(it) if it else None})"
     return "other:" + show(p)[:30]
 
 
@@ -536,24 +596,45 @@ def rule_heading(rep: Report, repo: Repo, rule: str) -> None:
                           witness="title of length 1 / long title / multi-byte title")
     if n == 0:
         raise AnalysisError("Heading.build_heading_string stores nothing")
-    # Heading.__init__ stores title and char unchanged
+    # Heading.__init__ stores title and char unchanged (evaluated, so Assign / AnnAssign / aliases read the same)
     init = h.methods["__init__"]
     p = func_params(init)
-    stores = {norm(x.targets[0]): norm(x.value) for x in walk_no_nested(init) if isinstance(x, ast.Assign)}
-    rep.check(stores.get("self.title") == p[1] and stores.get("self.header_char") == p[2], rule, f"{MOD}:Heading.__init__",
-              "stores title/header_char unchanged", "Heading alters its title or header character")
+    okh = False
+    for o in _eval(repo, "Heading", init, opaque_methods=("build_heading_string",)):
+        st_ = {e[2]: e[3] for e in o.effects if e[0] == "store" and e[1] == SELF}
+        okh = st_.get("title") == ("sym", p[1]) and st_.get("header_char") == ("sym", p[2])
+    rep.check(okh, rule, f"{MOD}:Heading.__init__", "stores title/header_char unchanged", "Heading alters its title or header character")
     # RSTWriter: header_char = heading_level_chars[section_level]; headers from settings
     w = repo.cls("RSTWriter")
     winit = w.methods["__init__"]
-    txt = {norm(x.targets[0] if isinstance(x, ast.Assign) else x.target): norm(x.value)
-           for x in walk_no_nested(winit) if isinstance(x, (ast.Assign, ast.AnnAssign)) and x.value is not None}
-    rep.check(txt.get("self.header_char") == "self.heading_level_chars[section_level]", rule, f"{MOD}:RSTWriter.__init__",
-              f"self.header_char = {txt.get('self.header_char')}",
+    wp = func_params(winit)
+    HEADERS = attr(attr(("sym", "settings"), "rst"), "headers")
+    got_hc, got_chars, doc_init_ok = None, None, False
+    for o in _eval(repo, "RSTWriter", winit, opaque_methods=("build_heading",)):
+        isnone = None
+        for a_, v_ in o.conds:
+            if a_[0] == "isnone" and a_[1] == HEADERS:
+                isnone = v_
+        st_ = {}
+        for e in o.effects:
+            if e[0] == "store" and e[1] == SELF:
+                st_[e[2]] = e[3]
+        d = st_.get("document")
+        dob = o.state.obj(d) if d is not None else None
+        if dob is not None and dob.get("kind") == "list" and len(dob["items"]) == 1 and \
+                dob["items"][0][0] == "call" and dob["items"][0][1] == ("attr", SELF, "build_heading"):
+            doc_init_ok = True
+        if isnone is False:
+            got_chars = st_.get("heading_level_chars")
+            got_hc = st_.get("header_char")
+    rep.check(got_hc == ("sub", HEADERS, ("sym", "section_level")), rule, f"{MOD}:RSTWriter.__init__",
+              f"self.header_char = {show(got_hc) if got_hc else None}",
               "the heading character is not the configured header list indexed by section_level",
               witness="rst.headers: ['=', '-']")
-    rep.check(txt.get("self.heading_level_chars") == "settings.rst.headers", rule, f"{MOD}:RSTWriter.__init__",
-              f"self.heading_level_chars = {txt.get('self.heading_level_chars')}",
+    rep.check(got_chars == HEADERS, rule, f"{MOD}:RSTWriter.__init__",
+              f"self.heading_level_chars = {show(got_chars) if got_chars else None}",
               "the configured header characters are not used")
+    txt = {"self.document": "[self.build_heading()]" if doc_init_ok else "?"}
     # build_heading
     for cname in ("RSTWriter",):
         bfn = repo.cls(cname).methods.get("build_heading")
